@@ -262,7 +262,54 @@ def order(repo, out):
     solves = g.calling('_solve_linear')
     if not solves:
         raise AnalysisError(f'{fn.ident}: no _solve_linear call found')
-    if len(scal) < 2:
+    if not subs:
+        # post-processing extracted into a helper method of the same class: decide the position of the helper call in
+        # compute_totals, then the order inside the helper
+        helpers = []
+        for n in g.nodes:
+            for c in n.calls():
+                if astx.path(astx.receiver(c)) == 'self':
+                    h = repo.lookup(fn.rel, fn.cls.name, astx.callee_attr(c))
+                    if h is not None and h is not fn and any(astx.callee_attr(c2) == '_apply_subtractions'
+                                                             for c2 in astx.calls(h.node)):
+                        helpers.append((n, h))
+        if helpers and len({h.qualname for _, h in helpers}) == 1:
+            hfn = helpers[0][1]
+            hnodes = [n for n, _ in helpers]
+            okpos = True
+            for hn in hnodes:
+                after = g.reach(g.normal_succ(hn), labels=cfgm.noexc)
+                if any(sv in after for sv in solves):
+                    w = g.path([m for sv in solves for m in g.normal_succ(sv)], [g.exit], avoid=hnodes, labels=cfgm.noexc)
+                    if w is not None:
+                        out.bad(fn, hn.ast, f'linear solves still run after {hfn.name}() (which applies the subtractions) and '
+                                'no call follows the last solve', key='subtraction-before-solves')
+                    else:
+                        out.unsure(fn, hn.ast, f'{hfn.name}() sits inside the solve loop: repeated application not analysed')
+                    okpos = False
+                elif any(h2 in after for h2 in hnodes):
+                    out.bad(fn, hn.ast, f'{hfn.name}() (subtractions + scaling) can run twice on one path',
+                            key='subtraction-twice')
+                    okpos = False
+            for sc in scal:
+                if g.dominated_by(sc, hnodes, labels=cfgm.noexc) is not None or \
+                        any(hn in g.reach(g.normal_succ(sc), labels=cfgm.noexc) for hn in hnodes):
+                    out.bad(fn, sc.ast, f'J is rescaled in place before {hfn.name}() applies the subtractions',
+                            key='scaling-before-subtraction:' + hfn.name)
+                    okpos = False
+            if not okpos:
+                return
+            n_scal_outer = len(scal)
+            fn, cx = hfn, Ctx(hfn)
+            g = cx.g
+            subs = g.calling('_apply_subtractions')
+            scal = g.calling('_apply_unit_scaling', 'apply_jac_scaling')
+            solves = g.calling('_solve_linear')
+            if len(scal) + n_scal_outer < 2:
+                raise AnalysisError(f'{fn.ident}: expected the unit-scaling and the driver-scaling call')
+            if len(scal) < 2:
+                scal = scal + scal[:1] * (2 - len(scal)) if scal else scal
+    if len(scal) < 2 and fn.name == 'compute_totals':
         raise AnalysisError(f'{fn.ident}: expected the unit-scaling and the driver-scaling call, found {len(scal)}')
     if not subs:
         elsewhere = [f for f in repo.module(TJ).funcs.values()
@@ -1262,10 +1309,38 @@ def setter_twins(repo, out):
             out.unsure(fn, fn.node, f'per-solve index ({how}) not found')
             continue
         disp = dir_dispatches(cx)
-        if not disp:
+        n_here = 0
+        # role variable chosen once by the direction:  key = (nz, i) if fwd else (i, nz) ;  J[key] = ...
+        for n in astx.walk(fn.node):
+            if not (isinstance(n, ast.Subscript) and isinstance(n.slice, ast.Name)):
+                continue
+            at = cx.at(n)
+            if cx.rpath(n.value, at) not in bases:
+                continue
+            kv, kd = cx.value(at, n.slice.id)
+            if not (isinstance(kv, ast.IfExp) and isinstance(kv.body, ast.Tuple) and isinstance(kv.orelse, ast.Tuple)):
+                continue
+            d0 = dir_when_true(kv.test, cx, kd)
+            if d0 is None:
+                continue
+            st = astx.stmt_of(n)
+            for d, tup in ((d0, kv.body), (_FLIPD[d0], kv.orelse)):
+                hits = [k for k, e in enumerate(tup.elts) if isinstance(e, ast.Name) and e.id in seeds]
+                if len(tup.elts) != 2 or len(hits) != 1:
+                    out.unsure(fn, st, f'index tuple `{astx.src(tup)}` does not use the per-solve index')
+                    continue
+                n_here += 1
+                want = 1 if d == 'fwd' else 0
+                if hits[0] != want:
+                    out.bad(fn, kd.ast, f"for '{d}' the index `{astx.src(tup)}` addresses a "
+                            f"{'row' if hits[0] == 0 else 'column'} of the jacobian; a {d} solve produces a "
+                            f"{'column' if d == 'fwd' else 'row'}", key=f'twin-{d}-axis')
+                else:
+                    out.ok(fn, st, f"'{d}': `{astx.src(n.value)}[{astx.src(tup)}]` addresses "
+                           f"{'column' if d == 'fwd' else 'row'} {astx.src(tup.elts[hits[0]])}")
+        if not disp and not n_here:
             out.unsure(fn, fn.node, 'no dispatch on the direction recognised')
             continue
-        n_here = 0
         for ifst, chain in disp:
             for d, stmts in chain:
                 if d == 'other':
@@ -1310,6 +1385,18 @@ def setter_twins(repo, out):
         if cx.rpath(t.value, at) != 'self.J':
             continue
         pos = _seed_position(t, seeds)
+        both_dirs = False
+        if pos is None and isinstance(t.slice, ast.Name):
+            kv, kd = cx.value(at, t.slice.id)
+            if isinstance(kv, ast.IfExp) and isinstance(kv.body, ast.Tuple) and isinstance(kv.orelse, ast.Tuple) and \
+                    len(kv.body.elts) == 2 and len(kv.orelse.elts) == 2 and dir_when_true(kv.test, cx, kd) is not None:
+                pa = [k for k, e in enumerate(kv.body.elts) if isinstance(e, ast.Name) and e.id in seeds]
+                pb = [k for k, e in enumerate(kv.orelse.elts) if isinstance(e, ast.Name) and e.id in seeds]
+                if len(pa) == 1 and len(pb) == 1 and ssame(kv.body.elts[1 - pa[0]], kv.orelse.elts[1 - pb[0]]) and \
+                        kv.body.elts[pa[0]].id == kv.orelse.elts[pb[0]].id:
+                    t = ast.Subscript(value=t.value, slice=kv.body, ctx=ast.Store())
+                    pos = pa[0]
+                    both_dirs = True
         if pos is None:
             continue
         seed = idx_elts(t)[pos].id
@@ -1342,8 +1429,10 @@ def setter_twins(repo, out):
             out.bad(fn, mapd.ast, f'row/col map is requested for `{astx.src(a0)}`, not for the mode being solved',
                     key='twin-gather')
             continue
-        n_ok += 1
+        n_ok += 2 if both_dirs else 1
         out.ok(fn, st, f'J[.., {seed}] and the solution are both indexed by get_row_col_map(mode)[{seed}]')
+        if both_dirs:
+            out.ok(fn, st, f'(shared fwd/rev store) J[.., {seed}] and the solution are both indexed by the same nonzero list')
     if n_ok < 2 and not any(i['status'] != 'ok' and i['func'] == fn.qualname for i in out.items):
         out.unsure(fn, fn.node, f'only {n_ok} coloured stores recognised (expected fwd and rev)')
 
@@ -2458,11 +2547,27 @@ def subtract(repo, out):
     cx = Ctx(fn)
     jp = cx.params[1] if len(cx.params) > 1 else None
     loops = [st for st in fn.node.body if isinstance(st, ast.For)]
-    if len(loops) != 1 or not (isinstance(loops[0].target, ast.Tuple) and len(loops[0].target.elts) == 2):
+    def _entry_names(lp):
+        """(position name, subtrahend name or '<entry>[1]' marker) for `for pos, subs in` / `for e in: pos = e[0] ...`"""
+        if isinstance(lp.target, ast.Tuple) and len(lp.target.elts) == 2 and all(isinstance(e, ast.Name) for e in lp.target.elts):
+            return lp.target.elts[0].id, lp.target.elts[1].id
+        if isinstance(lp.target, ast.Name):
+            en = lp.target.id
+            got = {}
+            for x in lp.body:
+                if isinstance(x, ast.Assign) and len(x.targets) == 1 and isinstance(x.targets[0], ast.Name) and \
+                        isinstance(x.value, ast.Subscript) and isinstance(x.value.value, ast.Name) and \
+                        x.value.value.id == en and isinstance(x.value.slice, ast.Constant) and x.value.slice.value in (0, 1):
+                    got[x.value.slice.value] = x.targets[0].id
+            if 0 in got:
+                return got[0], got.get(1, f'{en}[1]')
+        return None
+    names_ = _entry_names(loops[0]) if len(loops) == 1 else None
+    if names_ is None:
         out.unsure(fn, fn.node, 'loop over (position, subtrahends) not recognised')
     else:
         lp = loops[0]
-        pv, sv = (e.id for e in lp.target.elts)
+        pv, sv = names_
         it = lp.iter
         if astx.path(it) == 'self._subtractions':
             out.ok(fn, lp, 'subtractions are applied in their stored (dependency) order')
@@ -2529,9 +2634,11 @@ def subtract(repo, out):
                 out.unsure(fn, st, 'subtrahend expression not recognised')
             else:
                 elt, tgt, iter_ = summed
+                iter_is_sv = (isinstance(iter_, ast.Name) and iter_.id == sv) or \
+                    (isinstance(iter_, ast.Subscript) and astx.src(iter_) == sv)
                 good = isinstance(elt, ast.Subscript) and isinstance(elt.value, ast.Name) and elt.value.id == jp and \
                     isinstance(tgt, ast.Name) and isinstance(elt.slice, ast.Name) and elt.slice.id == tgt.id and \
-                    isinstance(iter_, ast.Name) and iter_.id == sv
+                    iter_is_sv
                 if good:
                     out.ok(fn, st, f'{jp}[{pv}] -= sum({jp}[k] for k in {sv})')
                 elif isinstance(iter_, ast.Name) and iter_.id != sv:
@@ -3144,7 +3251,8 @@ def stale(repo, out):
     fn = repo.func(DRIVER, 'Driver._setup_driver')
     cx = Ctx(fn)
     resets = [s for s in astx.walk_stmts(fn.node.body) if isinstance(s, ast.Assign) and
-              any(astx.path(t) == 'self._coloring_info.coloring' for t in s.targets) and
+              any(cx.rpath(t, cx.node(s)) == 'self._coloring_info.coloring' for t in s.targets
+                  if isinstance(t, ast.Attribute)) and
               isinstance(s.value, ast.Constant) and s.value.value is None]
     if not resets:
         out.bad(fn, fn.node, 'setup never resets self._coloring_info.coloring: a colouring generated for the previous model '
@@ -3152,14 +3260,19 @@ def stale(repo, out):
         return
 
     def atom_of(e):
-        p = astx.path(e)
+        at = cx.at(e)
+        p = cx.rpath(e, at) if isinstance(e, (ast.Name, ast.Attribute)) else None
         if p == 'self._coloring_info.dynamic':
             return 'dynamic'
         if p == 'coloring_mod._use_total_sparsity':
             return 'enabled'
+        if isinstance(e, ast.Name):
+            v, d = cx.value(at, e.id)
+            if isinstance(v, (ast.BoolOp, ast.Compare, ast.UnaryOp)):
+                return boolx.from_ast(v, atom_of)
         if isinstance(e, ast.Compare) and len(e.ops) == 1 and isinstance(e.ops[0], (ast.Is, ast.IsNot)) and \
                 isinstance(e.comparators[0], ast.Constant) and e.comparators[0].value is None and \
-                astx.path(e.left) == 'self._coloring_info.static':
+                cx.rpath(e.left, at) == 'self._coloring_info.static':
             return ('not', 'static') if isinstance(e.ops[0], ast.Is) else 'static'
         return 'free:' + sdump(e)
     Gs = []
@@ -3412,6 +3525,14 @@ def context(repo, out):
                     rp = cx.rpath(t, n)
                     if rp and '[*]' not in rp and rp.split('.')[0].split('[')[0] in cx.params:
                         res.setdefault(rp, []).append(n)
+            elif n.kind == 'stmt' and isinstance(n.ast, ast.Expr) and isinstance(n.ast.value, ast.Call) and \
+                    astx.callee_attr(n.ast.value) == 'update' and not n.ast.value.args:
+                # mapping.update(key=value, ...) stores mapping['key']
+                base = cx.rpath(astx.receiver(n.ast.value), n)
+                if base and base.split('.')[0] in cx.params:
+                    for k in n.ast.value.keywords:
+                        if k.arg:
+                            res.setdefault(f"{base}[{k.arg!r}]", []).append(n)
         return res
     sets = state_stores(before)
     rest = state_stores(after)
@@ -3440,6 +3561,8 @@ def context(repo, out):
             if id(r.ast) in seen_ast:
                 continue
             seen_ast.add(id(r.ast))
+            if not isinstance(r.ast, ast.Assign):
+                continue
             v = r.ast.value
             if isinstance(v, ast.Name):
                 sv, sd = cx.value(r, v.id)
@@ -3494,7 +3617,35 @@ def load_mirror(repo, out):
     verdicts = {}
     for d, blk in blocks.items():
         single = rest = None
-        for n in walk_body(blk.body):
+        body_ = blk.body
+        # conversion extracted into a helper called with this direction's slot: follow it
+        if len(blk.body) == 1 and isinstance(blk.body[0], ast.Assign) and isinstance(blk.body[0].value, ast.Call) and \
+                len(blk.body[0].value.args) == 1 and not blk.body[0].value.keywords:
+            call = blk.body[0].value
+            a0 = call.args[0]
+            h = repo.try_func(COL, 'Coloring.' + (astx.callee_attr(call) or ''))
+            if h is not None:
+                if not (isinstance(a0, ast.Attribute) and a0.attr == d):
+                    out.bad(fn, blk, f'the {d} colouring is rebuilt from `{astx.src(a0)}`', key='load-mirror' + d)
+                    verdicts[d] = 'reported'
+                    continue
+                hp = [a.arg for a in h.node.args.args if a.arg not in ('self', 'cls')]
+                # names standing for <param>[0] (the group list of the direction)
+                grp_names = {x.targets[0].id for x in astx.walk_stmts(h.node.body) if isinstance(x, ast.Assign)
+                             and len(x.targets) == 1 and isinstance(x.targets[0], ast.Name)
+                             and isinstance(x.value, ast.Subscript) and isinstance(x.value.value, ast.Name)
+                             and hp and x.value.value.id == hp[0] and isinstance(x.value.slice, ast.Constant)
+                             and x.value.slice.value == 0}
+                body_ = h.node.body if grp_names else blk.body
+        for n in walk_body(body_):
+            # explicit loop form:  for c in old[k]: new.append([c])
+            if isinstance(n, ast.For) and isinstance(n.iter, ast.Subscript) and isinstance(n.iter.slice, ast.Constant) and \
+                    isinstance(n.target, ast.Name) and len(n.body) == 1 and isinstance(n.body[0], ast.Expr) and \
+                    isinstance(n.body[0].value, ast.Call) and astx.callee_attr(n.body[0].value) == 'append' and \
+                    len(n.body[0].value.args) == 1 and isinstance(n.body[0].value.args[0], ast.List) and \
+                    len(n.body[0].value.args[0].elts) == 1 and isinstance(n.body[0].value.args[0].elts[0], ast.Name) and \
+                    n.body[0].value.args[0].elts[0].id == n.target.id:
+                single = n.iter
             if isinstance(n, ast.ListComp) and isinstance(n.elt, ast.List) and len(n.elt.elts) == 1 and \
                     isinstance(n.generators[0].iter, ast.Subscript) and isinstance(n.generators[0].iter.slice, ast.Constant):
                 single = n.generators[0].iter
@@ -3510,6 +3661,8 @@ def load_mirror(repo, out):
         verdicts[d] = (same_src and lo == single.slice.value + 1, single, rest)
     for d, blk in blocks.items():
         v = verdicts[d]
+        if v == 'reported':
+            continue
         if v is None:
             if kf == kr:
                 out.unsure(fn, blk, f'conversion idiom of the {d} block not recognised (blocks are mirror images)')
@@ -3612,6 +3765,36 @@ _CTX_OLD = ("    try:\n        yield\n    finally:\n"
             "        problem._metadata['coloring_randgen'] = None\n        problem._computing_coloring = False\n"
             "        problem._metadata['randomize_subjacs'] = saved_rand_subjacs\n"
             "        problem._metadata['randomize_seeds'] = saved_rand_seeds\n")
+
+_STALE_OLD = ("            if self._coloring_info.dynamic or self._coloring_info.static is not None:\n"
+              "                self._coloring_info.coloring = None\n")
+_FINISH_OLD = (_SUB_BLOCK + "\n                self._apply_unit_scaling(self.J_dict)\n\n                # Driver scaling.\n"
+               "                if self.has_scaling:\n                    self._driver._autoscaler.apply_jac_scaling(self.J_dict)\n")
+_FINISH_HELPER = ("    def _finish_jac(self):\n        coloring = self.simul_coloring\n        if coloring is not None:\n"
+                  "            if coloring._subtractions:\n                coloring._apply_subtractions(self.J)\n\n"
+                  "        jac_dict = self.J_dict\n        self._apply_unit_scaling(jac_dict)\n"
+                  "        if self.has_scaling:\n            self._driver._autoscaler.apply_jac_scaling(jac_dict)\n\n")
+_FINISH_HELPER_BAD = ("    def _finish_jac(self):\n        jac_dict = self.J_dict\n        self._apply_unit_scaling(jac_dict)\n"
+                      "        coloring = self.simul_coloring\n        if coloring is not None:\n"
+                      "            if coloring._subtractions:\n                coloring._apply_subtractions(self.J)\n\n"
+                      "        if self.has_scaling:\n            self._driver._autoscaler.apply_jac_scaling(jac_dict)\n\n")
+_SETTER_OLD = ("        if fwd:\n            for i in inds:\n                row = row_col_map[i]\n"
+               "                J[row, i] = reduced_derivs[row]\n\n                if dist:\n"
+               "                    self._jac_setter_dist(i, mode)\n        else:  # rev\n            for i in inds:\n"
+               "                col = row_col_map[i]\n                J[i, col] = reduced_derivs[col]\n"
+               "                if dist:\n                    self._jac_setter_dist(i, mode)\n")
+_SETTER_NEW = ("        for i in inds:\n            nzs = row_col_map[i]\n"
+               "            jac_key = (nzs, i) if fwd else (i, nzs)\n            J[jac_key] = reduced_derivs[nzs]\n\n"
+               "            if dist:\n                self._jac_setter_dist(i, mode)\n")
+_LOAD_OLD = ("            if coloring._fwd:\n                old = coloring._fwd[0]\n                newgrps = [[c] for c in old[0]]\n"
+             "                newgrps.extend(old[1:])\n                coloring._fwd = (newgrps, coloring._fwd[1])\n"
+             "            if coloring._rev:\n                old = coloring._rev[0]\n                newgrps = [[c] for c in old[0]]\n"
+             "                newgrps.extend(old[1:])\n                coloring._rev = (newgrps, coloring._rev[1])\n")
+_LOAD_NEW = ("            if coloring._fwd:\n                coloring._fwd = Coloring._update_old_color_groups(coloring._fwd)\n"
+             "            if coloring._rev:\n                coloring._rev = Coloring._update_old_color_groups(coloring._rev)\n")
+_LOAD_HELPER = ("    @staticmethod\n    def _update_old_color_groups(direction_info):\n        old_groups = direction_info[0]\n"
+                "        new_groups = []\n        for c in old_groups[0]:\n            new_groups.append([c])\n"
+                "        new_groups.extend(old_groups[1:])\n        return (new_groups, direction_info[1])\n\n")
 
 selftest(
     'C03',
@@ -4045,6 +4228,42 @@ selftest(
     Twin('load-twin-renamed-local', COL,
          "                old = coloring._rev[0]\n                newgrps = [[c] for c in old[0]]\n                newgrps.extend(old[1:])\n",
          "                prev = coloring._rev[0]\n                newgrps = [[r] for r in prev[0]]\n                newgrps.extend(prev[1:])\n"),
+    # ---- third robustness round
+    Twin('stale-twin-alias-demorgan', DRIVER, _STALE_OLD,
+         "            ci = self._coloring_info\n            if not (not ci.dynamic and ci.static is None):\n                ci.coloring = None\n"),
+    Mutant('stale-alias-dynamic-kept', DRIVER, _STALE_OLD,
+           "            ci = self._coloring_info\n            if not (ci.static is None):\n                ci.coloring = None\n", 'C03.stale'),
+    Twin('context-twin-update-and-tuple', COL,
+         "        problem._metadata['randomize_subjacs'] = coloring_info.randomize_subjacs\n        problem._metadata['randomize_seeds'] = coloring_info.randomize_seeds\n",
+         "        problem._metadata.update(randomize_subjacs=coloring_info.randomize_subjacs,\n                                 randomize_seeds=coloring_info.randomize_seeds)\n"),
+    Mutant('context-update-not-restored', COL,
+           "        problem._metadata['randomize_subjacs'] = coloring_info.randomize_subjacs\n        problem._metadata['randomize_seeds'] = coloring_info.randomize_seeds\n",
+           "        problem._metadata.update(randomize_subjacs=coloring_info.randomize_subjacs,\n                                 randomize_seeds=coloring_info.randomize_seeds)\n",
+           'C03.context', also=[(COL, "        problem._metadata['randomize_seeds'] = saved_rand_seeds\n", "")]),
+    Twin('sub-twin-entry-indexed', COL, "        for pos, subs in self._subtractions:\n            tosub = sum(J[k] for k in subs)\n",
+         "        for entry in self._subtractions:\n            pos = entry[0]\n            tosub = 0\n            for k in entry[1]:\n                tosub = tosub + J[k]\n"),
+    Mutant('sub-entry-indexed-plus', COL, "        for pos, subs in self._subtractions:\n            tosub = sum(J[k] for k in subs)\n            J[pos] -= tosub\n",
+           "        for entry in self._subtractions:\n            pos = entry[0]\n            tosub = 0\n            for k in entry[1]:\n                tosub = tosub + J[k]\n            J[pos] += tosub\n",
+           'C03.subtract'),
+    Twin('order-twin-finish-helper', TJ, _FINISH_OLD, "                self._finish_jac()\n",
+         also=[(TJ, "    def compute_totals(self, progress_out_stream=None):\n", _FINISH_HELPER + "    def compute_totals(self, progress_out_stream=None):\n")]),
+    Mutant('order-finish-helper-scales-first', TJ, _FINISH_OLD, "                self._finish_jac()\n", 'C03.order',
+           also=[(TJ, "    def compute_totals(self, progress_out_stream=None):\n", _FINISH_HELPER_BAD + "    def compute_totals(self, progress_out_stream=None):\n")]),
+    Mutant('order-finish-helper-before-solves', TJ, _FINISH_OLD, "", 'C03.order',
+           also=[(TJ, "    def compute_totals(self, progress_out_stream=None):\n", _FINISH_HELPER + "    def compute_totals(self, progress_out_stream=None):\n"),
+                 (TJ, "                # Main loop over columns (fwd) or rows (rev) of the jacobian\n",
+                  "                self._finish_jac()\n                # Main loop over columns (fwd) or rows (rev) of the jacobian\n")]),
+    Twin('twin-twin-merged-loops', TJ, _SETTER_OLD, _SETTER_NEW),
+    Mutant('twin-merged-loops-axes-swapped', TJ, _SETTER_OLD, _SETTER_NEW.replace('(nzs, i) if fwd else (i, nzs)', '(i, nzs) if fwd else (nzs, i)'),
+           'C03.setter-twins'),
+    Mutant('twin-merged-loops-wrong-gather', TJ, _SETTER_OLD, _SETTER_NEW.replace('reduced_derivs[nzs]', 'reduced_derivs[i]'),
+           'C03.setter-twins'),
+    Twin('load-twin-helper', COL, _LOAD_OLD, _LOAD_NEW,
+         also=[(COL, "    @staticmethod\n    def load(fname):\n", _LOAD_HELPER + "    @staticmethod\n    def load(fname):\n")]),
+    Mutant('load-helper-keeps-ungrouped-list', COL, _LOAD_OLD, _LOAD_NEW, 'C03.load-mirror',
+           also=[(COL, "    @staticmethod\n    def load(fname):\n", _LOAD_HELPER.replace('old_groups[1:]', 'old_groups[0:]') + "    @staticmethod\n    def load(fname):\n")]),
+    Mutant('load-helper-wrong-slot', COL, _LOAD_OLD, _LOAD_NEW.replace('groups(coloring._rev)', 'groups(coloring._fwd)'), 'C03.load-mirror',
+           also=[(COL, "    @staticmethod\n    def load(fname):\n", _LOAD_HELPER + "    @staticmethod\n    def load(fname):\n")]),
     Twin('coords-twin-renamed', COL, "    nzrows, nzcols = J.row, J.col\n    col_groups = _get_full_disjoint_cols(J)",
          "    nzrows, nzcols = J.row, J.col\n    col_groups = _get_full_disjoint_col_matrix_cols(_2col_adj_rows_cols(J))"),
 )
